@@ -18,7 +18,7 @@ fn spec(t: Tier) -> Spec {
     Spec {
         id: "C13",
         level: "exploration",
-        rule: format!("(1) a sandbox holding every creatable entry kind (regular empty/non-empty/setuid, hard-link pair, empty and non-empty directory, fifo, socket, symbolic links to each of them, to a link, to a file outside, dangling; link owners differ from target owners; ids 0, 1, 54321, 2^31) is walked under -P, -H, -L from the directory (entries at depth >= 1) and with every entry as its own starting point (depth 0); on every visited entry every test of the vocabulary (-type/-xtype x 7 letters, -links/-inum/-uid/-gid N,+N,-N around the real values and those values plus 2^32, -user/-group by name and number, -empty, -samefile against every entry, -lname '*', 8 -perm operands) is evaluated in comma-list runs of the real find and compared with the oracle computed from lstat()/stat() of the materialised entry (stat-else-lstat where the mode follows at that depth; -xtype the opposite choice; -lname only where the selected record is still a link). (2) {pm} files (and directories in thorough) carrying every permission value x octal operands ({ops}) x forms MODE, -MODE, /MODE against the bit formula. (3) symbolic operands: every sequence of <= {sq} clauses over who x op x perms (chmod semantics applied to 0, umask 0; includes copies like g=u and clauses that remove bits) — the mask the code derives is read off the selection on 25 probe files for -SYM and /SYM and on all 4096 files for SYM, and must equal the reference value. evaluation = (entry, test); non-trivial = test on a symbolic link or with a symbolic operand or a permission test", pm = 4096, ops = t.pick("every mask with <= 3 or >= 10 bits set, class masks: 386", "all 4096"), sq = t.pick("1 (all 432) and 2 over a 54-clause subset", "2 (all 432^2)")),
+        rule: format!("(1) a sandbox holding every creatable entry kind (regular empty/non-empty/setuid, hard-link pair, empty and non-empty directory, fifo, socket, symbolic links to each of them, to a link, to a file outside, dangling; link owners differ from target owners; ids 0, 1, 54321, 2^31) is walked under -P, -H, -L from the directory (entries at depth >= 1) and with every entry as its own starting point (depth 0); on every visited entry every test of the vocabulary (-type/-xtype x 7 letters, -links/-inum/-uid/-gid N,+N,-N around the real values and those values plus 2^32, -user/-group by name and number, -empty, -samefile against every entry, -lname '*', 8 -perm operands) is evaluated in comma-list runs of the real find and compared with the oracle computed from lstat()/stat() of the materialised entry (stat-else-lstat where the mode follows at that depth; -xtype the opposite choice; -lname only where the selected record is still a link). (2) {pm} files (and directories in thorough) carrying every permission value x octal operands ({ops}) x forms MODE, -MODE, /MODE against the bit formula. (3) symbolic operands: every sequence of <= {sq} clauses over who x op x perms (chmod semantics applied to 0, umask 0; includes copies like g=u and clauses that remove bits) — the mask the code derives is read off the selection on 25 probe files for -SYM and /SYM and on all 4096 files for SYM, and must equal the reference value. (4) mounted file systems: a tmpfs on m/mnt (-inum N/+N/-N for every inode number present must follow lstat, also on the mount point) and two tmpfs instances with coinciding inode numbers (-samefile against every file: device and inode must both agree). (5) as uid 65534: links into a mode-000 directory are not dangling (-xtype l false), the dangling one is. evaluation = (entry, test); non-trivial = test on a symbolic link or with a symbolic operand or a permission test", pm = 4096, ops = t.pick("every mask with <= 3 or >= 10 bits set, class masks: 386", "all 4096"), sq = t.pick("1 (all 432) and 2 over a 54-clause subset", "2 (all 432^2)")),
         bound: json!({"follow": ["-P","-H","-L"], "perm_values": 4096, "octal_operands": t.pick(386, 4096), "symbolic_clauses": 432, "symbolic_sequences": t.pick("432 + 54^2", "432 + 432^2")}),
         assumptions: vec![
             "a -samefile reference that is itself a symbolic link is judged under -P (lstat) and -L (stat) only; under -H it is run for determinism".into(),
@@ -604,7 +604,160 @@ fn part_symbolic(ctx: &mut Ctx, base_job: &mut u64) {
     }
 }
 
+/// Mounted file systems inside the walk: a tmpfs on m/mnt (the directory entry's inode number is
+/// that of the covered directory, the status record's that of the mounted root) and two separate
+/// tmpfs instances A and B whose files carry the same inode numbers. -inum N/+N/-N must follow the
+/// status record; -samefile must compare device AND inode.
+fn mount_slice(ctx: &mut Ctx) {
+    use std::ffi::CString;
+    let sbx = ctx.sbx.clone();
+    crate::sandbox::clear_dir(&sbx);
+    for d in ["m/mnt", "m/plain", "A", "B"] {
+        std::fs::create_dir_all(sbx.join(d)).unwrap();
+    }
+    struct Unmount(Vec<CString>);
+    impl Drop for Unmount {
+        fn drop(&mut self) {
+            for t in &self.0 {
+                unsafe { libc::umount2(t.as_ptr(), libc::MNT_DETACH) };
+            }
+        }
+    }
+    let mut guard = Unmount(vec![]);
+    let (src, fst) = (CString::new("none").unwrap(), CString::new("tmpfs").unwrap());
+    for d in ["m/mnt", "A", "B"] {
+        let target = CString::new(sbx.join(d).to_string_lossy().as_bytes()).unwrap();
+        if unsafe { libc::mount(src.as_ptr(), target.as_ptr(), fst.as_ptr(), 0, std::ptr::null()) } != 0 {
+            ctx.rep.count("mount_slice_skipped_(mount_not_permitted)", 1);
+            return;
+        }
+        guard.0.push(target);
+    }
+    std::fs::write(sbx.join("m/mnt/x"), b"").unwrap();
+    std::fs::write(sbx.join("m/plain/y"), b"").unwrap();
+    for d in ["A", "B"] {
+        for k in 0..6 {
+            std::fs::write(sbx.join(d).join(format!("f{k}")), b"").unwrap();
+        }
+    }
+    std::fs::hard_link(sbx.join("A/f1"), sbx.join("A/hard")).unwrap();
+    std::env::set_current_dir(&sbx).unwrap();
+    // (1) -inum
+    let paths: Vec<String> = lb::list_tree("m").into_iter().map(|(p, _)| p).collect();
+    let inos: BTreeSet<u64> = paths.iter().filter_map(|p| lb::lstat(Path::new(p)).map(|s| s.ino)).collect();
+    let mut tests: Vec<Test> = vec![];
+    let mut meta: Vec<(u64, u8)> = vec![];
+    for n in &inos {
+        for (f, pre) in ["", "+", "-"].iter().enumerate() {
+            tests.push(lb::t(&["-inum", &format!("{pre}{n}")]));
+            meta.push((*n, f as u8));
+        }
+    }
+    match lb::run_labelled(&[], &["m"], &[], &tests, default_now()) {
+        Ok(sel) if sel.out.code == Ok(0) => {
+            for (ti, (n, f)) in meta.iter().enumerate() {
+                for p in &paths {
+                    let ino = lb::lstat(Path::new(p)).unwrap().ino;
+                    let want = [ino == *n, ino > *n, ino < *n][*f as usize];
+                    let got = sel.sel[ti].contains(p);
+                    ctx.rep.evaluations += 1;
+                    ctx.rep.nontrivial += 1;
+                    if got != want {
+                        ctx.rep.violation(
+                            "C13 -inum does not follow the status record on a mount point",
+                            format!("find m ... {:?}: {p} (lstat inode {ino}{}) selected={got}, expected {want}", tests[ti], if p == "m/mnt" { ", a mount point" } else { "" }),
+                            json!({"prop":"C13","part":"mount"}),
+                        );
+                    }
+                }
+            }
+        }
+        Ok(sel) => ctx.rep.violation("C13 non-zero status [mount slice]", sel.out.brief(), json!({"prop":"C13","part":"mount"})),
+        Err((why, out, _)) => ctx.rep.violation("C13 output not attributable [mount slice]", format!("{why}: {}", out.brief()), json!({"prop":"C13","part":"mount"})),
+    }
+    // (2) -samefile across two file systems whose inode numbers coincide
+    let all: Vec<String> = lb::list_tree("A").into_iter().chain(lb::list_tree("B")).map(|(p, _)| p).collect();
+    let id = |p: &str| lb::lstat(Path::new(p)).map(|s| (s.dev, s.ino)).unwrap();
+    let coincide = all.iter().any(|a| all.iter().any(|b| id(a).1 == id(b).1 && id(a).0 != id(b).0));
+    if !coincide {
+        ctx.rep.count("mount_slice_no_coinciding_inode_numbers", 1);
+    }
+    let refs: Vec<&String> = all.iter().filter(|p| p.contains("/f") || p.ends_with("hard")).collect();
+    let tests: Vec<Test> = refs.iter().map(|r| lb::t(&["-samefile", r])).collect();
+    match lb::run_labelled(&[], &["A", "B"], &[], &tests, default_now()) {
+        Ok(sel) if sel.out.code == Ok(0) => {
+            for (ti, r) in refs.iter().enumerate() {
+                for p in &all {
+                    let want = id(p) == id(r);
+                    let got = sel.sel[ti].contains(p);
+                    ctx.rep.evaluations += 1;
+                    ctx.rep.nontrivial += 1;
+                    if got != want {
+                        ctx.rep.violation(
+                            "C13 -samefile across file systems: device and inode number must both agree",
+                            format!("find A B -samefile {r}: {p} (dev,ino {:?}; reference {:?}) selected={got}, expected {want}", id(p), id(r)),
+                            json!({"prop":"C13","part":"mount"}),
+                        );
+                    }
+                }
+            }
+        }
+        Ok(sel) => ctx.rep.violation("C13 non-zero status [mount slice]", sel.out.brief(), json!({"prop":"C13","part":"mount"})),
+        Err((why, out, _)) => ctx.rep.violation("C13 output not attributable [mount slice]", format!("{why}: {}", out.brief()), json!({"prop":"C13","part":"mount"})),
+    }
+    ctx.rep.count("mount_slice_runs", 1);
+    std::env::set_current_dir(&sbx).unwrap();
+    drop(guard);
+    crate::sandbox::clear_dir(&sbx);
+}
+
+/// A link whose target exists but cannot be reached by the user running find (it lies in a
+/// mode-000 directory, find runs as uid 65534): it is not a dangling link, so -xtype l is false for
+/// it; the dangling link next to it is -xtype l.
+fn unreachable_target_slice(ctx: &mut Ctx) {
+    let sbx = ctx.sbx.clone();
+    crate::sandbox::clear_dir(&sbx);
+    let _ = std::fs::set_permissions(&sbx, std::fs::Permissions::from_mode(0o755));
+    std::fs::create_dir_all(sbx.join("u/locked")).unwrap();
+    std::fs::write(sbx.join("u/locked/f"), b"x").unwrap();
+    std::fs::create_dir(sbx.join("u/locked/d")).unwrap();
+    std::os::unix::fs::symlink("locked/f", sbx.join("u/lf")).unwrap();
+    std::os::unix::fs::symlink("locked/d", sbx.join("u/ld")).unwrap();
+    std::os::unix::fs::symlink("nowhere", sbx.join("u/dang")).unwrap();
+    std::fs::write(sbx.join("u/plain"), b"").unwrap();
+    std::fs::set_permissions(sbx.join("u/locked"), std::fs::Permissions::from_mode(0o000)).unwrap();
+    for (follow, expr, want) in [
+        ("-P", vec!["-xtype", "l"], vec!["u/dang"]),
+        ("-H", vec!["-xtype", "l"], vec!["u/dang"]),
+        ("-P", vec!["-type", "l"], vec!["u/dang", "u/ld", "u/lf"]),
+        ("-P", vec!["-xtype", "f"], vec!["u/plain"]),
+    ] {
+        let mut args: Vec<&str> = vec![follow, "u", "-sorted", "-mindepth", "1"];
+        args.extend(expr.iter());
+        let got = crate::props::c02::run_find_as_nobody(&args, &sbx);
+        ctx.rep.evaluations += 1;
+        ctx.rep.nontrivial += 1;
+        ctx.rep.count("unreachable_target_runs", 1);
+        let sel: Vec<String> = String::from_utf8_lossy(&got.out).lines().filter(|l| *l != "u/locked").map(String::from).collect();
+        if got.panicked() || sel != want {
+            ctx.rep.violation(
+                "C13 a link whose target exists but cannot be reached is treated like a dangling link (or the other way round)",
+                format!("as uid 65534: find {:?}: selected {:?}, expected {:?}; status {:?} stderr {:?}", args, sel, want, got.code, String::from_utf8_lossy(&got.err)),
+                json!({"prop":"C13","part":"unreachable"}),
+            );
+        }
+    }
+    let _ = std::fs::set_permissions(sbx.join("u/locked"), std::fs::Permissions::from_mode(0o755));
+    crate::sandbox::clear_dir(&sbx);
+}
+
 fn run(ctx: &mut Ctx) {
+    if ctx.shard == 2 % ctx.nshards {
+        mount_slice(ctx);
+    }
+    if ctx.shard == 3 % ctx.nshards {
+        unreachable_target_slice(ctx);
+    }
     part_kinds(ctx);
     let sbx = ctx.sbx.clone();
     if let Err(e) = build_perm(&sbx, ctx.tier == Tier::Thorough) {
@@ -618,6 +771,14 @@ fn run(ctx: &mut Ctx) {
 
 fn replay(case: &Value, ctx: &mut Ctx) -> Option<String> {
     let sbx = ctx.sbx.clone();
+    if case["part"] == "mount" {
+        mount_slice(ctx);
+        return ctx.rep.violations.keys().next().cloned();
+    }
+    if case["part"] == "unreachable" {
+        unreachable_target_slice(ctx);
+        return ctx.rep.violations.keys().next().cloned();
+    }
     if case["part"] == "kinds" {
         build_kinds(&sbx).ok()?;
         let tst: Test = case["test"].as_array()?.iter().map(|v| v.as_str().unwrap_or("").to_string()).collect();
